@@ -6,8 +6,9 @@
    The parts are in SqlLemmas (basics, guard facts), SqlInv (table invariant),
    SqlAbs (tables = stored events of the history), SqlSort, SqlQuery (query
    = specification), SqlC14 (idempotence, faults, reopen), SqlOracle (the
-   boolean oracle reflects stored / deleted / live). *)
-From Moc Require Export Base Match MatchProofs Sql SqlSpec SqlLemmas SqlInv SqlAbs SqlSort SqlQuery SqlC14 SqlOracle.
+   boolean oracle reflects stored / deleted / live), SqlMerge (the merge test
+   of the oracle reflects the merge statement: [query_specb_spec]). *)
+From Moc Require Export Base Match MatchProofs Sql SqlSpec SqlLemmas SqlInv SqlAbs SqlSort SqlQuery SqlC14 SqlOracle SqlMerge.
 From Moc.Gen Require Import GenMsg GenSql.
 Open Scope Z_scope.
 
